@@ -390,6 +390,91 @@ def run(ctx):
     ul = [i for i in rmv.calls() if rmv.callee(i) == 'unlink']
     ctx.check(len(ul) == 1, R4, 'remove:unlinks', 'remove does not unlink the session file', rmv.where)
 
+    # ---------------- R7 the lock really is shared between the worker processes; the checksum covers the whole data
+    R7 = ctx.rule('C18.R7', 'multi-process mode without fcntl locks: the mutex table lives in a MAP_SHARED (never MAP_PRIVATE) anonymous mapping sized for all stripes and every mutex in it is created process-shared - a '
+                            'private mapping gives every forked worker its own locks; crc32_calc::process_bytes feeds [ptr, ptr+n) to the CRC exactly once, in order, chaining the running value (E3, the CRC primitive '
+                            'replaced by a recorder) - a checksum over part of the data lets a torn tail through')
+    ct = [g for g in P.fns.values() if g.kind == 'ctor' and (g.record or '').endswith('session_file_storage') and g.body is not None and len(g.params) >= 4]
+    ctx.require(len(ct) >= 1, 'C18.R7: session_file_storage constructor not found')
+    cf = ct[0]
+    mm = [i for i in cf.calls() if (cf.callee(i) or '') in ('mmap', 'mmap64')]
+    ok7 = len(mm) == 1
+    why7 = 'no single mmap of the mutex table'
+    if ok7:
+        a_ = cf.args(mm[0])
+        fl = cf.const_value(a_[3])
+        if fl is None and cf.ref_of(a_[3]):
+            vals = [cf.const_value(v_) for (d_, v_) in cf.defs_of_var(cf.ref_of(a_[3])) if v_ is not None]
+            fl = vals[0] if len(vals) == 1 else None
+        ok7 = fl is not None and (fl & 0x01) == 0x01 and (fl & 0x02) == 0 and cf.const_value(a_[4]) == -1
+        why7 = 'the mapping that holds the per-session mutexes is not MAP_SHARED (flags %s): after fork every worker has its own copy of the locks' % (hex(fl) if fl is not None else '?')
+        if ok7:
+            ok7 = any(model.strip_targs(x).endswith('session_file_storage::lock_size_') for x in cf.subtree_refs(a_[1])) and any(cf.N(j)['k'] == 'UnaryExprOrTypeTraitExpr' for j in cf.walk(a_[1]))
+            why7 = 'the mapping is not sized lock_size_ mutexes'
+        if ok7:
+            mk = [i for i in cf.calls() if q.short_of(cf.callee(i) or '') == 'create_mutex']
+            shared_mk = [i for i in mk if cf.const_value(cf.args(i)[1]) == 1 and any(model.strip_targs(x).endswith('session_file_storage::locks_') for x in cf.subtree_refs(cf.args(i)[0]))]
+            lp = [L for i in shared_mk for L in q.enclosing_loops(cf, i)]
+            cl = q.counting_loop(cf, lp[0]) if len(lp) == 1 else None
+            ok7 = len(shared_mk) == 1 and q.before(cf, mm[0], shared_mk[0]) and cl is not None and cl['start'] == 0 and cl['step'] == 1 and cl['op'] == '<' and \
+                any(model.strip_targs(x).endswith('session_file_storage::lock_size_') for x in cf.subtree_refs(cl['bound']))
+            why7 = 'not every mutex of the shared table is created process-shared'
+    ctx.check(ok7, R7, 'session_file_storage():mutex-table-shared-between-processes', why7, cf.where)
+    cm = [g for g in P.fns.values() if g.short == 'create_mutex' and (g.record or '').endswith('session_file_storage') and g.body is not None]
+    if cm:
+        f = cm[0]
+        sp_ = [i for i in f.calls() if (f.callee(i) or '') == 'pthread_mutexattr_setpshared']
+        pshared = q.param_by_index(f, 1)
+        g_ps = f.gate_edges(lambda atom, pol: f.ref_of(atom) == pshared and pol is True)
+        init_ = [i for i in f.calls() if (f.callee(i) or '') == 'pthread_mutex_init']
+        okm = len(sp_) >= 1 and all(f.const_value(f.args(i)[1]) == 1 for i in sp_) and bool(g_ps) and bool(init_)
+        if okm:
+            # on the process-shared path the initialisation uses the attribute that was marked shared
+            av = f.ref_of(f.args(sp_[0])[0]) or ([x for x in f.subtree_refs(f.args(sp_[0])[0]) if x.startswith('v:')] or [None])[0]
+            okm = any(av in f.subtree_refs(f.args(i)[1]) for i in init_ if q.reaches(f, sp_[0], i)) and not f.only_through(sp_[0], f.gate_edges(lambda atom, pol: f.ref_of(atom) == pshared and pol is False))
+        ctx.check(okm, R7, 'create_mutex:process-shared-attribute-used', 'a mutex requested as process-shared is not initialised with PTHREAD_PROCESS_SHARED', f.where)
+    pbf = P.fn('cppcms::impl::crc32_calc::process_bytes')
+    from vlib import absint as _a7
+    fv = [x for x in set(pbf.N(i).get('ref') for i in pbf.all_nodes() if pbf.N(i)['k'] == 'MemberExpr') if x and x.endswith('crc32_calc::value_')]
+    ctx.require(len(fv) == 1, 'C18.R7: crc32_calc::value_ not found in process_bytes')
+    bad = []
+    for n_ in (0, 1, 2, 65535, 65536, 65537, 140001):
+        calls = []
+        arr = _a7.Arr([_a7.AV.const(0)] * max(n_, 1), 'data')
+
+        def h_crc(it, fn_, i_, env_, calls=calls, arr=arr):
+            a_ = fn_.args(i_)
+            v_, p_, l_ = it.rvalue(fn_, a_[0], env_), it.rvalue(fn_, a_[1], env_), it.rvalue(fn_, a_[2], env_)
+            if not (isinstance(p_, _a7.PV) and p_.arr is arr and isinstance(l_, _a7.AV) and l_.is_const() and isinstance(v_, _a7.AV) and v_.is_const()):
+                raise _a7.Unsupported('crc primitive called on something else than the data')
+            calls.append((v_.lo, p_.off, l_.lo))
+            return _a7.AV.const((v_.lo * 31 + p_.off * 7 + l_.lo + 1) & 0xFFFFFFFF)
+        hooks = {}
+        for c_ in pbf.calls():
+            cn_ = model.strip_targs(pbf.N(c_).get('cn') or '')
+            if cn_ in ('crc32', 'Crc32_ComputeBuf') or cn_.endswith('::crc32'):
+                hooks[cn_] = h_crc
+        ctx.require(bool(hooks), 'C18.R7: no CRC primitive called from process_bytes')
+        it = _a7.Interp(P, [], hooks=hooks)
+        it.fields = {fv[0]: _a7.Cell(_a7.AV.const(0x1234))}
+        try:
+            it.call_fn(pbf, [_a7.PV(arr, 0), _a7.AV.const(n_)])
+        except _a7.OutOfBounds as e:
+            bad.append('%d bytes: %s' % (n_, e))
+            continue
+        off, val = 0, 0x1234
+        okc = True
+        for (v_, o_, l_) in calls:
+            if v_ != val or o_ != off or l_ <= 0:
+                okc = False
+                break
+            val = (v_ * 31 + o_ * 7 + l_ + 1) & 0xFFFFFFFF
+            off += l_
+        fin = it.fields[fv[0]].v
+        if not okc or off != n_ or not (fin.is_const() and fin.lo == val):
+            bad.append('%d bytes: the CRC primitive saw (running value, offset, length) = %s' % (n_, calls[:4]))
+    ctx.check(not bad, R7, 'crc32_calc::process_bytes:whole-range-once-in-order-chained', '; '.join(bad[:2]), pbf.where)
+    ctx.floor(R7, 2)
     ctx.floor(R1, 20)
     ctx.floor(R2, 8)
     ctx.floor(R3, 16)
